@@ -661,8 +661,8 @@ PROPS = {
         'level': 'other',
         'rule': "MODEL lines: abstract instances are READ OFF THE REAL CODE (for every goal reachable from the root goals the harness asks chalk for the clauses solve_from_clauses would try - custom clauses, program_clauses_that_could_match, program_clauses_for_env, could_match filter - instantiates each against the goal with the real InferenceTable as Fulfill::new_with_clause does and canonicalizes the conditions as Fulfill::prove does; programs outside the abstraction of FixedPoint.lean are refused and counted) for three families: ground dependency graphs of <= 12 structs over an inductive and a #[coinductive] trait (chains with/without base case, diamonds, one cycle with/without base case entered through a tail, nested SCCs, two SCCs sharing nodes, random graphs; all-inductive / all-coinductive / mixed kinds; several impls per type), goals with unknowns (the F10 family: blanket impls `impl<X> Qi for X where X: Qj` + per trait no or >= 2 facts), and ProgGen programs with closed atomic goals whose goal closure is finite (<= 48 goals). One request line = one SCRIPT of calls on ONE real RecursiveSolver (cache on or off, overflow depth): per call the outcome kind (unique/none/ambig/panic:<site>), the hook's work counter and the hook-dumped cache must equal the model's, exactly. C09 scripts: histories of plain solves with cache on/off plus overflow depths 1,2,3,5 (overflow panics compared). ORACLE (both solvers, no model line): corpus/C09 first (F12, F18, F20 inputs, growing types `impl<T> Foo for T where Vec<T>: Foo`, polymorphic recursion `impl<T> Foo for Vec<T> where Vec<Vec<T>>: Foo`; every limit combination), then generated subjects (ground graphs, unknown-family, ProgGen with growing/polymorphic-recursive impls and 1/3 coinductive traits; 5 goals each: 2 shaped after impl headers with unknowns, 1 free-form with unknowns, 2 closed incl. not/forall/if) x 4 configurations drawn per subject: SLG default, SLG max_size in {3,4,6,10}, recursive default, recursive max_size in {4,8,15,30} x overflow depth in {20,50,100} x cache on/off. Every solve runs in a child process (sharded harness) under a work budget of 50000 steps installed in BOTH engines' cfg(chalk_verif) counters (solve_goal entries + fixed-point rounds; ensure_root_answer iterations) and a 30 s per-call watchdog that aborts the process (the parent reports the case in flight). Non-trivial = instance with a cycle or an outcome other than unique; distinct = distinct request lines",
         'technique': "Lean 4 theorems about an executable model of the recursive solver's fixed-point/caching framework (bounding mechanisms: depth, loop exit, explicit work bound) + exact differential correspondence of outcome, work counter and cache with the real RecursiveSolver + deterministic work budgets on both real engines in child processes",
-        'claim': "PARTIAL by nature (a theorem cannot exhibit a hang of the real schedulers). Proved for the model, all instances: reached_fixed_point_ambig_stops (an ambiguous answer ends the loop of solve_new_subgoal in the same round, whatever fuel is left), fixedPoint_terminates (on the value domain noSolution < unique < ambig a MONOTONE iteration satisfies reached_fixed_point within 3 rounds, 2 from the initial values; fixedPoint_three_rounds_tight), termination_needs_monotone (a non-monotone iteration oscillates for ever: this is F18's negative cycle), work_bounded / call_work_bounded (explicit closed bound workBound(rounds, A, S, depth) on solve_goal entries + loop rounds of one call for every instance, state, oracle and outcome: the stack depth bound of Stack::push makes the nesting finite, each alternative solves each sub-goal at most twice), workBound_attained (the exponential shape is real without the cache: 30, 62, 126 steps for chains of 3, 4, 5 vs 11, 14, 17 with it = F20). The hypothesis 'finite height' is what fails for the real substitution-carrying Unique values (F12, remark in Props/C09.lean). OBSERVED on the real code: every solve of every generated subject under every drawn limit returned within the work budget or ended in the permitted recursive 'overflow depth reached' panic, except the known findings. An overflow panic is accepted because on a fresh solver the stack holds exactly the goals of the current search path, so Stack::push panics iff the search is that deep; it is cross-checked by re-running with 8x the depth (must overflow again or finish).",
-        'note': "Findings: F12 (recursive solver, coinductive goal with an unknown: answer grows for ever, native stack overflow) reproduced on the unchanged tree (budget / abort in the child process), REPAIRED in /repo (commit d4bc291: max_size test on the iteration's answer), regression input in corpus/C09. OPEN: F18 recursive_negative_cycle_diverges (lead's finding: cycle through negation never reaches a fixed point; SLG panics 'negative cycle was detected' = F18-slg), F20 recursive_nocache_exponential_reprove (cache disabled: work doubles per level of a growing goal, 2^(max_size+1)). NOT YET THEOREMS (differential only): monotonicity of the real iteration in the provisional answer (hence that 3 rounds suffice on every instance), absence of the model's assert-panics on cyclic instances, anything about the SLG engine's termination. Trusted: Lean kernel, model fidelity (differential, exact incl. work counter), the hooks' counters, harness.",
+        'claim': "PARTIAL by nature (a theorem cannot exhibit a hang of the real schedulers). Proved for the model, all instances: reached_fixed_point_ambig_stops (an ambiguous answer ends the loop of solve_new_subgoal in the same round, whatever fuel is left), fixedPoint_terminates (on the value domain noSolution < unique < ambig a MONOTONE iteration satisfies reached_fixed_point within 3 rounds, 2 from the initial values; fixedPoint_three_rounds_tight), termination_needs_monotone (a non-monotone iteration oscillates for ever: this is F18's negative cycle), work_bounded / call_work_bounded (explicit closed bound workBound(rounds, A, S, depth) on solve_goal entries + loop rounds of one call for every instance, state, oracle and outcome: the stack depth bound of Stack::push makes the nesting finite, each alternative solves each sub-goal at most twice), workBound_attained (the exponential shape is real without the cache: 30, 62, 126 steps for chains of 3, 4, 5 vs 11, 14, 17 with it = F20), acyclic_call_terminates (the property's sentence for ACYCLIC instances of any size: every call without work budget on a solver with any history - answers, interruptions, panics - cache on or off, returns a value when the goal's rank fits under the overflow depth; no assert of the framework fires, every loop runs one round). The hypothesis 'finite height' is what fails for the real substitution-carrying Unique values (F12, remark in Props/C09.lean). OBSERVED on the real code: every solve of every generated subject under every drawn limit returned within the work budget or ended in the permitted recursive 'overflow depth reached' panic, except the known findings. An overflow panic is accepted because on a fresh solver the stack holds exactly the goals of the current search path, so Stack::push panics iff the search is that deep; it is cross-checked by re-running with 8x the depth (must overflow again or finish).",
+        'note': "Findings: F12 (recursive solver, coinductive goal with an unknown: answer grows for ever, native stack overflow) reproduced on the unchanged tree (budget / abort in the child process), REPAIRED in /repo (commit d4bc291: max_size test on the iteration's answer), regression input in corpus/C09. OPEN: F18 recursive_negative_cycle_diverges (lead's finding: cycle through negation never reaches a fixed point; SLG panics 'negative cycle was detected' = F18-slg), F20 recursive_nocache_exponential_reprove (cache disabled: work doubles per level of a growing goal, 2^(max_size+1)), F24 slg_work_budget_exceeded (SLG enumeration exponential in the number of overlapping copies of an impl on an unbounded answer set), and in C10: F23 slg_runaway_after_history. Budgets: 50000 steps recursive, 10000 (much heavier) steps SLG, 90 s per call as last resort. NOT YET THEOREMS (differential only): termination on CYCLIC instances, i.e. monotonicity of the real iteration in the provisional answer (hence that 3 rounds suffice on every instance), absence of the model's assert-panics on cyclic instances, anything about the SLG engine's termination. Trusted: Lean kernel, model fidelity (differential, exact incl. work counter), the hooks' counters, harness.",
         'correspondence': 'FixedPoint.{solveRootGoal, solveGoal, solveNewSubgoal, solveIteration, solveFromClauses, fulfillSolve} + hook tick (lean/ChalkModel/FixedPoint.lean) vs chalk_recursive::RecursiveSolver::solve_limited on instances read off program_clauses_that_could_match / InferenceTable (outcome kind, work counter, cache entries)',
         'explanation': "bounding mechanisms proved on an exact model; the real engines' termination observed through deterministic work counters in child processes",
     },
@@ -670,8 +670,8 @@ PROPS = {
         'level': 'proof',
         'rule': "MODEL lines: abstract instances are READ OFF THE REAL CODE (for every goal reachable from the root goals the harness asks chalk for the clauses solve_from_clauses would try - custom clauses, program_clauses_that_could_match, program_clauses_for_env, could_match filter - instantiates each against the goal with the real InferenceTable as Fulfill::new_with_clause does and canonicalizes the conditions as Fulfill::prove does; programs outside the abstraction of FixedPoint.lean are refused and counted) for three families: ground dependency graphs of <= 12 structs over an inductive and a #[coinductive] trait (chains with/without base case, diamonds, one cycle with/without base case entered through a tail, nested SCCs, two SCCs sharing nodes, random graphs; all-inductive / all-coinductive / mixed kinds; several impls per type), goals with unknowns (the F10 family: blanket impls `impl<X> Qi for X where X: Qj` + per trait no or >= 2 facts), and ProgGen programs with closed atomic goals whose goal closure is finite (<= 48 goals). One request line = one SCRIPT of calls on ONE real RecursiveSolver (cache on or off, overflow depth): per call the outcome kind (unique/none/ambig/panic:<site>), the hook's work counter and the hook-dumped cache must equal the model's, exactly. C10 scripts: histories of 1-7 plain solves of root goals (repetitions included) with the cache on and the same history with the cache off. ORACLE (real code, SLG, recursive, recursive without cache; no model line): corpus/C10 first (F10, F13, F14, F17 inputs), then generated subjects (as C09 without growing impls), goal pool of <= 5: the fresh-solver answer of every goal, then ALL permutations of <= 4 goals (5 in the thorough tier), every goal twice, and 12 (40) random sequences of length 2-6 with repetitions, each posed to ONE solver instance; every answer must equal (==) the fresh solver's; recursive cache-on vs cache-off fresh answers must be equal. One failing history per solver and program is reported. Non-trivial = instance with a cycle or an outcome other than unique",
         'technique': "Lean 4 theorems about an executable model of the recursive solver's fixed-point/caching framework (invariant over all call histories: cache soundness w.r.t. the instance's equations) + exact differential correspondence (outcome, work counter, cache contents) + exhaustive small histories on both real solvers",
-        'claim': "RECURSIVE framework, proof: cache_transparent_partial - for every acyclic instance (Ranked: any size, inductive/coinductive goals, goals with unknowns), every configuration with the F3/F7 repairs, every two histories of ARBITRARY calls (plain, interrupted by any oracle, panicking at any work step) on solvers with or without cache, two plain solves of the same goal that return give the same value (answer_is_semantic: the value the instance's equations determine). The full statement is refuted on the code as found (legacy_cache_transparent_refuted = F10, by decide on the 4-clause witness; f10_repaired) and is STILL refuted on the repaired code (cache_transparent_refuted, cache_on_off_refuted = F13 mixed cycles). The model agrees exactly with the real solver on every script incl. the F10 and F13 witnesses (pre-repair code checked against Cfg.legacy, repaired code against Cfg.current). SLG: differential only (translation validation against a fresh solver run).",
-        'note': "Findings: F10 reproduced on the unchanged tree, REPAIRED (commit 4106fc3), regression input in corpus/C10. OPEN: F13 recursive_mixed_cycle_cached (NEW: the error value of a mixed inductive/coinductive cycle is entry-point dependent but cached), F14 slg_coinductive_cycle_table_reuse (lead's), F17 slg_answer_order_depends_on_history (NEW: SLG aggregate depends on answer order, which depends on earlier queries; both answers sound). NOT YET THEOREMS (differential only): cache transparency for instances with inductive or coinductive cycles (no mixed cycles), equality of panics (with a cache a deep goal can be answered where a fresh solver overflows; the theorem speaks of calls that return), tables_keyed_by_goal for SLG. Trusted: Lean kernel, model fidelity (differential), instance extraction in fp.rs, harness.",
+        'claim': "RECURSIVE framework, proof: cache_transparent_partial - for every acyclic instance (Ranked: any size, inductive/coinductive goals, goals with unknowns), every configuration with the F3/F7 repairs, every two histories of ARBITRARY calls (plain, interrupted by any oracle, panicking at any work step) on solvers with or without cache, two plain solves of the same goal that return give the same value (answer_is_semantic: the value the instance's equations determine); cache_transparent_acyclic: when the goal's rank fits under the overflow depth the solve after any history RETURNS and returns the fresh solver's value (unconditional). The full statement is refuted on the code as found (legacy_cache_transparent_refuted = F10, by decide on the 4-clause witness; f10_repaired) and is STILL refuted on the repaired code (cache_transparent_refuted, cache_on_off_refuted = F13 mixed cycles). The model agrees exactly with the real solver on every script incl. the F10 and F13 witnesses (pre-repair code checked against Cfg.legacy, repaired code against Cfg.current). SLG: differential only (translation validation against a fresh solver run).",
+        'note': "Findings: F10 reproduced on the unchanged tree, REPAIRED (commit 4106fc3), regression input in corpus/C10. OPEN: F13 recursive_mixed_cycle_cached (NEW: the error value of a mixed inductive/coinductive cycle is entry-point dependent but cached), F14 slg_coinductive_cycle_table_reuse (lead's), F17 slg_answer_order_depends_on_history (NEW: SLG aggregate depends on answer order, which depends on earlier queries; both answers sound), F22 recursive_ambig_precision_depends_on_history (NEW, benign: the precision of an ambiguous answer depends on the entry point of a cycle; reported only when both answers admit solutions and one is ambiguous), F23 slg_runaway_after_history (NEW: a goal answered in 88 steps by a fresh SLG solver does not return after another goal of the same coinductive family was solved on the same forest). NOT YET THEOREMS (differential only): cache transparency for instances with inductive or coinductive cycles (no mixed cycles), equality of panics (with a cache a deep goal can be answered where a fresh solver overflows; the theorem speaks of calls that return), tables_keyed_by_goal for SLG. Trusted: Lean kernel, model fidelity (differential), instance extraction in fp.rs, harness.",
         'correspondence': 'FixedPoint.runHistory / solveRootGoal with the persistent cache (lean/ChalkModel/FixedPoint.lean) vs one chalk_recursive::RecursiveSolver answering a history (outcome kind, work counter, Cache entries through the cfg(chalk_verif) accessor)',
     },
     'C11': {
@@ -679,7 +679,7 @@ PROPS = {
         'rule': "MODEL lines: abstract instances are READ OFF THE REAL CODE (for every goal reachable from the root goals the harness asks chalk for the clauses solve_from_clauses would try - custom clauses, program_clauses_that_could_match, program_clauses_for_env, could_match filter - instantiates each against the goal with the real InferenceTable as Fulfill::new_with_clause does and canonicalizes the conditions as Fulfill::prove does; programs outside the abstraction of FixedPoint.lean are refused and counted) for three families: ground dependency graphs of <= 12 structs over an inductive and a #[coinductive] trait (chains with/without base case, diamonds, one cycle with/without base case entered through a tail, nested SCCs, two SCCs sharing nodes, random graphs; all-inductive / all-coinductive / mixed kinds; several impls per type), goals with unknowns (the F10 family: blanket impls `impl<X> Qi for X where X: Qj` + per trait no or >= 2 facts), and ProgGen programs with closed atomic goals whose goal closure is finite (<= 48 goals). One request line = one SCRIPT of calls on ONE real RecursiveSolver (cache on or off, overflow depth): per call the outcome kind (unique/none/ambig/panic:<site>), the hook's work counter and the hook-dumped cache must equal the model's, exactly. C11 scripts: for a root goal with n callback calls in a clean run, first call = solve_limited with the callback false from its k-th call on, k = 0..n+1 (capped at 12; set VERIF_FP_NONMONOTONE for 'false at the k-th call only' in the model lines too), or always false; then a second limited solve (callback false at its 2nd call), a plain solve of the same goal and of another goal; cache on and off. ORACLE (real code, SLG, recursive, recursive without cache): corpus/C11 first (F3, F16 inputs), generated subjects as C10; per goal every schedule - false ONLY at call k and false FROM call k on for k = 0..n+1 (capped 16 / 60), always, never - on a fresh solver: the limited answer must be the full answer or Ambig; then a second limited solve, solve(goal), solve(other goal) on the same instance must equal the fresh answers. A later difference that the same history WITHOUT interruption also shows is attributed to the C10 finding it reproduces. Non-trivial as C10",
         'technique': 'Lean 4 theorems about the executable model with the should_continue oracle at the head of solve_iteration + exact differential correspondence + exhaustive interruption schedules on both real solvers',
         'claim': "RECURSIVE framework, proof (acyclic instances, repaired code, every history, every oracle): interrupt_weaker_partial (an interrupted call that returns gives the fresh solver's answer or ambig), interrupt_then_fresh_partial (after any history of interrupted or panicking calls an uninterrupted solve returns the fresh solver's answer). Refutations by decide: legacy_interrupt_then_fresh_refuted (F3), legacy_unwrap_panics (F16), and interrupt_then_fresh_refuted on the REPAIRED code for all instances (through F13, not through interruption). SLG: differential only.",
-        'note': "Findings: F3 reproduced on the unchanged tree, REPAIRED (commit 9fd4e00); F16 (NEW: unwrap of NoSolution in the last pass of Fulfill::solve under a callback that says stop once and then go on) reproduced (cache off on the unchanged tree; always after the F3 repair), REPAIRED (commit 241c13c); regression inputs in corpus/C11. C10's open findings F13, F14, F17 are also reported here when a history exercises them. NOT YET THEOREMS (differential only): both sentences for instances with cycles; makeSolution_interrupt for SLG. The model's last-pass test `constrained_subst().is_some()` is `v = unique` (exact when every ambig is Ambig(Unknown)); the model lines therefore use monotone oracles by default (0 disagreements were also observed with non-monotone ones).",
+        'note': "Findings: F3 reproduced on the unchanged tree, REPAIRED (commit 9fd4e00); F16 (NEW: unwrap of NoSolution in the last pass of Fulfill::solve under a callback that says stop once and then go on) reproduced (cache off on the unchanged tree; always after the F3 repair), REPAIRED (commit 241c13c); F21 (NEW, C01-type: the ambiguity shortcut of reached_fixed_point kept Ambig(Definite) guidance computed before the fixed point - wrong definite guidance even without interruption, turned into a wrong Unique by an interrupted solve) reproduced by the thorough run, REPAIRED (commit 4d0be45: early exit only for Ambig(Unknown)); regression inputs in corpus/C11. C10's open findings F13, F14, F17 are also reported here when a history exercises them. NOT YET THEOREMS (differential only): both sentences for instances with cycles; makeSolution_interrupt for SLG. The model's last-pass test `constrained_subst().is_some()` is `v = unique` (exact when every ambig is Ambig(Unknown)); the model lines therefore use monotone oracles by default (0 disagreements were also observed with non-monotone ones).",
         'correspondence': 'FixedPoint.runCall with Call.oracle / Call.dflt (should_continue test of solve_iteration, interrupted flag) vs RecursiveSolver::solve_limited with a scripted callback',
     },
     'C12': {
